@@ -399,6 +399,9 @@ class Parser:
 
                 res = getattr(self, rule)()
 
+            if last_token.type == Token.ERRORTOKEN and last_token.string[-1:] in ("'", '"'):
+                message = f"unterminated string literal (detected at line {last_token.start[0]})"
+                self.raise_raw_syntax_error(message, last_token.start, last_token.end)
             self.raise_raw_syntax_error("invalid syntax", last_token.start, last_token.end)
 
         if isinstance(res, ast.AST) and self._version_errors:
